@@ -200,7 +200,7 @@ func c01MustBuild(g *model.G) geom.T {
 func c01Shapes(c *fw.Ctx, idx int) {
 	r := c.R
 	kind := gen.Kinds7[r.Intn(len(gen.Kinds7))]
-	layout := c01Layouts[r.Intn(len(c01Layouts))]
+	layout := gen.PickLayout(r, c01Layouts)
 	cl := gen.AnyClass(r)
 	g := gen.Shape(r, kind, layout, cl, gen.ShapeOpts{Big: true})
 	if layout == geom.NoLayout {
